@@ -130,6 +130,12 @@ func init() {
 	replayFamilies[modPath+"/query.(*UnaryCriteria).eq"] = lit
 	replayFamilies[modPath+"/query.(*UnaryCriteria).in"] = lit
 	replayFamilies[modPath+"/query.(*UnaryCriteria).contains"] = lit
+	scenario := func(key, pkgDir, testFile, testName string) {
+		replayFamilies[modPath+key] = &replayFamily{pkgDir: pkgDir, testFile: testFile, testName: testName,
+			build: func(r *Result, vals map[string]string) (interface{}, bool) { return "fixed scenario", true }}
+	}
+	// keys may name one obligation ("<function>#<obligation substring>"): looked up before the function key
+	scenario(".(*DB).DeleteById#size-accounts", ".", "clover_replay_test.go", "TestVerifReplayDeleteAbsent")
 	imp := &replayFamily{pkgDir: ".", testFile: "clover_replay_test.go", testName: "TestVerifReplayImport",
 		build: func(r *Result, vals map[string]string) (interface{}, bool) { return "fixed scenario", true }}
 	replayFamilies[modPath+".(*DB).ImportCollection"] = imp
@@ -188,6 +194,11 @@ func parseGetValue(out string) map[string]string {
 
 func runValueReplay(P *Prog, r *Result) (out string, failed bool, ran bool) {
 	fam := replayFamilies[r.O.Fn]
+	for k, f := range replayFamilies {
+		if i := strings.Index(k, "#"); i > 0 && k[:i] == r.O.Fn && strings.Contains(r.O.Name, k[i+1:]) {
+			fam = f
+		}
+	}
 	if fam == nil {
 		return "", false, false
 	}
